@@ -1008,10 +1008,20 @@ Definition tfield_text (srows : list srow) (i : nat) (f : str) : Prop :=
                    Forall (rep_text_ok fr) (bsplit (rsep e) f))).
 
 (* what the segment's children look like: per field text, the repetitions parsed from it *)
-Definition fields_of (sn : str) (i : nat) (f : str) (g : list field) : Prop :=
+Definition fields_of (srows : list srow) (sn : str) (i : nat) (f : str) (g : list field) : Prop :=
   (f = [] /\ g = []) \/
   (is_blank f = false /\
-   Forall2 (fun r x => f_name x = Some (name_idx sn i) /\ enc_field t e x = Ok r) (bsplit (rsep e) f) g).
+   exists row fr fv, nth_error srows (pred i) = Some row /\ row_ref t row = Some fr /\
+   Forall2 (fun r x => parse_field t TOLERANT e leaf r (Some (name_idx sn i)) (Some fr) fv = Ok x /\
+                       f_name x = Some (name_idx sn i) /\ enc_field t e x = Ok r) (bsplit (rsep e) f) g).
+
+Lemma Forall2_impl_In {A B} (R S : A -> B -> Prop) l m :
+  (forall a b, In a l -> R a b -> S a b) -> Forall2 R l m -> Forall2 S l m.
+Proof.
+  intros H F. induction F as [|a b l m Hab _ IH]; constructor.
+  - apply H; [now left|exact Hab].
+  - apply IH. intros a' b' Hi. apply H. now right.
+Qed.
 
 Theorem seg_table_roundtrip sn srows (fs : list str) :
   length sn = 3 -> upper sn = sn -> streqb sn (unbs "MSH") = false -> valid_z_segment_name sn = false ->
@@ -1023,7 +1033,7 @@ Theorem seg_table_roundtrip sn srows (fs : list str) :
   exists s gs,
     parse_segment t TOLERANT e leaf (bjoin (fsep e) (sn :: fs)) None = Ok s /\
     s_children s = concat gs /\
-    Forall2 (fun p g => fields_of sn (fst p) (snd p) g) (indexed fs) gs /\
+    Forall2 (fun p g => fields_of srows sn (fst p) (snd p) g) (indexed fs) gs /\
     enc_segment t e s false = Ok (bjoin (fsep e) (sn :: fs)).
 Proof.
   intros H3 Hup Hmsh Hz Hl Hc Hrows Ht Hlen Hf.
@@ -1043,9 +1053,14 @@ Proof.
     + apply in_combine_seq in Hif. lia.
     + apply Hrows. exact (nth_error_In _ _ Hn).
   - exists s, gs. split; [exact Hp|]. split; [exact Hch|]. split; [|exact He].
-    eapply Forall2_impl; [|exact Hg]. intros [i f] g [[-> ->]|[Hb Hr]]; [now left|right].
-    split; [exact Hb|]. cbn [fst snd] in *. eapply Forall2_impl; [|exact Hr].
-    intros r x [_ [Hn He']]. split; assumption.
+    eapply Forall2_impl_In; [|exact Hg]. intros [i f] g Hin [[-> ->]|[Hb Hr]]; [now left|right].
+    split; [exact Hb|]. cbn [fst snd] in *.
+    destruct (Hf i f Hin) as [_ [_ [->|[_ [row [fr [Hn [Hrr _]]]]]]]]; [discriminate|].
+    exists row, fr, inf. split; [exact Hn|]. split; [exact Hrr|].
+    assert (Hi : 1 <= i) by (apply in_combine_seq in Hin; lia).
+    destruct i as [|i]; [lia|]. cbn [pred] in Hn.
+    destruct (rows_structure_ref_in t sn FIE srows st i row fr Hs Hn Hrr) as [Hm Href].
+    eapply Forall2_impl; [|exact Hr]. intros r x [Hpf [Hnm He']]. rewrite Hm, Href in Hpf. auto.
 Qed.
 
 End TableSeg.
